@@ -90,6 +90,30 @@ func c10Jobs(thorough bool) []json.RawMessage {
 		b, _ := json.Marshal(j)
 		out = append(out, b)
 	}
+	// the GetURL helper: one caller, three (thorough: two callers, two) calls in a row; every plan over {ok, ok+close, stall, slow}
+	{
+		sc := c10.Scenario{Name: "1x3-max2-geturl", N: 1, M: 3, MaxConns: 2, GetURL: true}
+		gb := 1
+		if thorough {
+			gb = 2
+		}
+		ans := []int{c10.AOk, c10.AOkClose, c10.AStall, c10.ASlow}
+		for _, a := range ans {
+			for _, b := range ans {
+				for _, c := range ans {
+					add(c10.Job{Sc: sc, Plan: c10.Plan{Answers: []int{a, b, c, 0}}, Bound: gb})
+				}
+			}
+		}
+		if thorough {
+			sc2 := c10.Scenario{Name: "2x2-max2-geturl", N: 2, M: 2, MaxConns: 2, GetURL: true}
+			for _, a := range ans {
+				for _, b := range ans {
+					add(c10.Job{Sc: sc2, Plan: c10.Plan{Answers: []int{a, b, 0, 0, 0}}, Bound: 1})
+				}
+			}
+		}
+	}
 	for _, sc := range scs {
 		k := sc.N*sc.M + 1
 		// deviation bounds: b1 for plans with at most one fault, b2 for two-fault / combined plans
